@@ -15,4 +15,5 @@ var (
 	ErrMaxDelegatorsReached             = errors.Register(ModuleName, 8, "max delegators reached for the pool")
 	ErrActionNotSupportedForSlashedPool = errors.Register(ModuleName, 9, "action not supported for slashed pool")
 	ErrInsufficientTotalStakingTokens   = errors.Register(ModuleName, 10, "insufficient total staking tokens")
+	ErrNotUndelegationOwner             = errors.Register(ModuleName, 11, "sender is not the owner of the undelegation")
 )
